@@ -28,6 +28,7 @@ ASSUMPTIONS = [
     "payload domain as stated in C01: no str.splitlines terminator, no trailing whitespace",
 ]
 
+DELETABLE = ("warmup",)
 ENDINGS = ("\n", "", "\r\n", " \n", "  ")
 
 
@@ -43,8 +44,18 @@ def strategy(tier: str):
             "version": gen.versions,
             "msg": gen.wellformed_message(),
             "ending": st.sampled_from(ENDINGS),
+            "warmup": st.one_of(st.just([]), st.lists(gen.wellformed_message().map(gen.line_of), max_size=3)),
         }
     )
+
+
+def enumerate_cases(tier: str):
+    from vf.codec_ref import VERSIONS
+
+    for version in VERSIONS:
+        for warm in ("1;1;1;0;2;1\n", "1;1;2;0;2;\n", "1;1;0;0;3;relay\n", "1;255;3;0;0;55\n", "1;255;0;0;17;2.0\n", "1;255;4;0;0;ff\n"):
+            for msg in ([1, 5, 3, 0, 3, ""], [255, 0, 3, 1, 4, "7"], [1, 255, 3, 0, 3, ""], [9, 254, 1, 0, 2, "a;b"], [9, 255, 0, 0, 17, "2.2.0"], [3, 255, 4, 0, 1, "ff"], [3, 1, 2, 1, 0, ""]):
+                yield {"version": version, "msg": msg, "ending": "\n", "warmup": [warm, warm]}
 
 
 def _nontrivial(msg: list) -> bool:
@@ -79,6 +90,12 @@ def run_case(case: dict) -> Outcome:
     pclass = "delim" if ";" in payload else "plain"
     schema = MessageSchema()
     schema.set_protocol(get_protocol(version))
+    for warm in case.get("warmup", ()):
+        # a long-lived schema (the gateway keeps one for its whole life) must not remember what it decoded
+        try:
+            schema.load(warm)
+        except Exception:  # noqa: BLE001
+            pass
     expected_line = ref_format(node, child, command, ack, mtype, payload)
 
     # (A) encode == reference formatter; decode(encode(m)) == m
